@@ -42,6 +42,9 @@ impl Interleaver {
         S: Data<Elem = T>,
     {
         assert_eq!(codeword.len() % self.columns, 0);
+        // Reshaping needs a contiguous array (the codeword can be a view with
+        // an arbitrary stride).
+        let codeword = codeword.as_standard_layout();
         let a2 = codeword
             .view()
             .into_shape_with_order((self.columns, codeword.len() / self.columns))
